@@ -25,7 +25,7 @@ from .streams import AskedForever, Runaway
 
 class SimFile(object):
     def __init__(self, name, log, screen=None, encoding="utf-8", on_write=None, max_calls=50000,
-                 write_through=False, on_call=None, strict=True):
+                 write_through=False, on_call=None, strict=True, short_write=None):
         self.name = name
         self.log = log
         self.screen = screen
@@ -33,6 +33,8 @@ class SimFile(object):
         self.on_write = on_write
         self.after_write = None
         self.strict = strict
+        self.short_write = short_write       # fault: f(string) -> number of characters this write() accepts
+        self.short_writes = 0
         self.write_through = write_through   # like a console stream: every write() reaches the device at once
         self.on_call = on_call               # called at every write() of the file object (a scheduling point)
         self.closed = False
@@ -52,6 +54,13 @@ class SimFile(object):
             # (strict=False: a stream opened with errors="replace" / "backslashreplace", as stderr is)
         if self.on_call is not None:
             self.on_call(self, string)
+        if self.short_write is not None:
+            n = self.short_write(string)
+            if n < len(string):
+                # a raw / non-blocking stream took only part of the text and says so
+                self.short_writes += 1
+                self.log.add("short_write", self.name, n, len(string))
+                string = string[:n]
         self.buffer += string
         if self.write_through:
             self._deliver()
